@@ -578,6 +578,16 @@ func runExport(hseed uint64, blocks int, dir string, flavour int) {
 					FromAddress: k.Addr, EvidenceType: pcTypes.RelayEvidence, ExpirationHeight: n.Height + 1 + 300}
 				err := n.App.VerifPocketKeeper().SetClaim(h.s.DeliverCtx(), c)
 				descs = append(descs, fmt.Sprintf("keeper-claim %s err=%v", k.Addr, err))
+				if i%2 == 0 {
+					// the same servicer also holds a CHALLENGE claim for the same session: the store key
+					// ends in the evidence type, so these are two distinct pending claims (no PRNG draw)
+					c2 := c
+					c2.EvidenceType = pcTypes.ChallengeEvidence
+					c2.TotalProofs = int64(3 + i)
+					c2.MerkleRoot = pcTypes.HashRange{Hash: pcTypes.Hash(append([]byte("challenge"), k.Addr...)), Range: pcTypes.Range{Lower: 0, Upper: uint64(900 + i)}}
+					err := n.App.VerifPocketKeeper().SetClaim(h.s.DeliverCtx(), c2)
+					descs = append(descs, fmt.Sprintf("keeper-challenge-claim %s err=%v", k.Addr, err))
+				}
 			}
 		}
 		if flavour >= 2 && r.Chance(1, 6) {
